@@ -913,6 +913,12 @@ func (s *Sess) funcEnv(heap, old *State, results []Val) *CEnv {
 	}
 	if s.fn.Signature.Recv() != nil && len(s.fn.Params) > 0 {
 		c.vars["$recv"] = s.env[s.fn.Params[0]]
+		// interface-level clauses refer to the receiver as an interface value `recv`
+		rv := s.env[s.fn.Params[0]]
+		if rv.place == nil && rv.t != "" {
+			rt := s.fn.Signature.Recv().Type()
+			c.vars["recv"] = Val{t: s.makeIfaceQuiet(rv, rt), typ: types.NewInterfaceType(nil, nil)}
+		}
 	}
 	sig := s.fn.Signature
 	for i := 0; i < sig.Results().Len(); i++ {
